@@ -127,6 +127,19 @@ CHECKS = {
         'descendant item and ancestor term); lookups are C06, closures C01.',
         'Lean 4 proof (exact characterisation of each validator + heap frame lemma) + differential correspondence',
         'DESIGN.md §6 C11'),
+    'C12': (
+        'Lean 4 theorems on a session model (any number of open generator frames over one immutable graph): stepping a frame to the '
+        'end yields what the whole-loop traversal of C01 yields; an operation changes at most the frame it addresses (frame '
+        'lemma); what next(j) yields and leaves depends only on frame j; a complete query appends the standalone result whatever ran '
+        'before; loading has no factory state in the model. PARTIAL by nature: the theorem is about a model in which graph and '
+        'factories have no mutable field — whether the CODE has one is what the tie probes: all interleavings of two real iterators '
+        '(<= 4 steps each), random interleavings of up to four with complete queries in between, on all three graph factories; '
+        'reader threads with a 1e-6 s switch interval; one factory instance reused for sequences of graphs with boundary-sharing edge '
+        'lists; all orders of loading documents through the default module-level factories against fresh-interpreter dumps.',
+        'pre-emptive thread switches inside a bytecode and real parallelism are not exhibited by the model (threads are supporting '
+        'evidence); sequences compared impl-interleaved vs impl-standalone, multisets vs the model.',
+        'Lean 4 proof (frame / non-interference on the session model) + exhaustive small interleavings, thread soak, factory-reuse and load-order replay',
+        'DESIGN.md §6 C12'),
     'C13': (
         'Lean 4 theorems for EVERY merge trace (the similarity measure, argmax, epsilon branch and cluster identifiers are an '
         'oracle): the clustering preserves the multiset of tagged leaves, the in-order walk lists each once, the position-queue '
